@@ -50,10 +50,11 @@ def run(ctx):
     # binding self-test
     recs = [json.loads(l) for l in open(tp)]
     muts = []
+    badids = {b["rec"]["id"] for b in bad}
     for r in recs:
         if len(muts) >= 9:
             break
-        if len(r["calls"]) >= 2 and r["errAt"] == 0:
+        if len(r["calls"]) >= 2 and r["errAt"] == 0 and r["id"] not in badids:
             a = json.loads(json.dumps(r)); a["calls"] = a["calls"][:-1]; muts.append(a)          # a record lost
             b = json.loads(json.dumps(r)); b["calls"][0], b["calls"][1] = b["calls"][1], b["calls"][0]; muts.append(b)
             c = json.loads(json.dumps(r)); c["ret"] = "nil"; muts.append(c)                      # EOF ignored
